@@ -33,8 +33,7 @@ Alpha(e, r) == SubSeq(e.mom[r], 1, e.dim)
 Val(e, r)   == SubSeq(e.mom[r], e.dim + 1, e.dim + NL)
 \* the "degree" the order n bounds
 Deg(kind, alpha) == CASE kind = "point" -> 0
-                      [] kind \in {"tri", "tet"} -> SumSeq(alpha)
-                      [] kind = "wedge" -> Max2(alpha[1] + alpha[2], alpha[3])
+                      [] kind \in {"tri", "tet", "wedge"} -> SumSeq(alpha)
                       [] OTHER -> MaxSet({alpha[i] : i \in DOMAIN alpha})
 
 FactorWF(f, kind) ==
